@@ -334,3 +334,13 @@ Definition tx_of_json (j : tx_json) : option tx :=
     end
   | _, _, _, _, _, _, _ => None
   end.
+
+(* hexutil.Encode: "0x" + lower-case hex (hexutil.Bytes, common.Address, common.Hash MarshalText) *)
+Definition enc_hexbytes (b : bytes) : bytes :=
+  x30 :: x78 :: flat_map (fun c => [hex_digit (b2n c / 16); hex_digit (b2n c mod 16)]) b.
+(* txdata.MarshalJSON as members (Transaction.MarshalJSON adds the hash h) *)
+Definition json_of_tx (t : tx) (h : bytes) : tx_json :=
+  mkTxJson (JS (enc_quantity (t_nonce t))) (JS (enc_quantity (t_price t))) (JS (enc_quantity (t_gas t)))
+    (match t_to t with Some a => JS (enc_hexbytes a) | None => JAbsent end)
+    (JS (enc_quantity (t_value t))) (JS (enc_hexbytes (t_data t)))
+    (JS (enc_quantity (t_v t))) (JS (enc_quantity (t_r t))) (JS (enc_quantity (t_s t))) (JS (enc_hexbytes h)).
